@@ -340,6 +340,15 @@ func SigScriptsFor(t *rapid.T, tx ref.Tx, idx int) SigProgram {
 		}
 		desc += "+unlock-checksig"
 	}
+	if uCheck && uReturn && !forkFlag {
+		// The bytes after the closing OP_RETURN are now part of a script code hashed with the legacy
+		// digest. What "separator removal" means for bytes that are never executed - and for a tail
+		// that does not even parse - is not fixed by the property (the node walks them with GetOp,
+		// the library keeps them as the OP_RETURN's payload): keep them parsable and free of 0xab.
+		for i := range uJunk {
+			uJunk[i] = []byte{0x51, 0x00, 0x61, 0x75, 0x60, 0xee, 0x52, 0x6a}[int(uJunk[i])%8]
+		}
+	}
 	uBlock := func(sigs map[int][]byte) []byte {
 		b := append(Push(sigs[uSlot], 0), Push(keys[0].pub, 0)...)
 		if uSepIn {
